@@ -70,8 +70,14 @@ def sig? (d : CidDict) (s : String) : Option SigTok :=
         cidTok d (← pt.toNat?), ← chain? chain⟩)
     | _ => none
 
+/-- the signer indices as `Signers.ForEach` yields them: a bitfield is a set iterated in strictly
+increasing order, so a list with a repeated or out-of-order index cannot come from the Go code and
+is unparseable (a harness bug), not a model input -/
+def bitfieldList (ss : List Nat) : Option (List Nat) := if increasing ss then some ss else none
+
 def signers? (s : String) : Option (Option (List Nat)) :=
-  if s = "!" then some none else (listOf "," String.toNat? s).map some
+  if s = "!" then some none
+  else ((listOf "," String.toNat? s).bind bitfieldList).map some
 
 def cert? (d : CidDict) (s : String) : Option Cert :=
   match s.splitOn "|" with
@@ -90,6 +96,7 @@ def vErrName : VErr → String
   | .baseMismatch => "baseMismatch" | .scale => "scale" | .signerBits => "signerBits"
   | .signerRange => "signerRange" | .signerZero => "signerZero" | .noQuorum => "noQuorum"
   | .badSig => "badSig" | .diff e => "diff:" ++ diffErrName e | .cidMismatch => "cidMismatch"
+  | .signerOrder => "signerOrder"
 
 def optErrName : Option VErr → String
   | none => "ok"
